@@ -65,6 +65,7 @@ type Case struct {
 	Outcomes []bool         `json:"outcomes"`       // per callable invocation index (global order): true = fail
 	Vals     []int          `json:"vals,omitempty"` // per invocation index: kind of value a succeeding callable returns (0 = fresh list)
 	Yields   int            `json:"yields"`
+	Prefill  int            `json:"prefill,omitempty"` // keys already held by both caches before the callers start
 	Pol      cosched.Policy `json:"pol"`
 }
 
@@ -97,6 +98,18 @@ func exec(c Case) (v ev.Verdict) {
 		}
 	}
 	o := &obs{invoked: map[int]int{}, succeeded: map[int][]starlark.Value{}, missed: map[int]int{}, stored: map[int]bool{}, results: map[int][]starlark.Value{}}
+
+	// a cache that already holds many other keys (whatever it does at particular sizes happens under the callers)
+	for i := 0; i < c.Prefill; i++ {
+		for _, once := range onces {
+			pre := starlark.NewBuiltin("prefill", func(*starlark.Thread, *starlark.Builtin, starlark.Tuple, []starlark.Tuple) (starlark.Value, error) {
+				return starlark.MakeInt(i), nil
+			})
+			if _, err := starlark.Call(&starlark.Thread{Name: "prefill"}, once, starlark.Tuple{starlark.String(fmt.Sprintf("pre%d", i)), pre}, nil); err != nil {
+				return ev.Failf("prefill-failed", "once(\"pre%d\") on an idle cache fails: %v", i, err)
+			}
+		}
+	}
 
 	s := cosched.New(c.Pol)
 	s.Install()
@@ -164,6 +177,12 @@ func exec(c Case) (v ev.Verdict) {
 	}
 	res := s.Wait(30 * time.Second)
 	v.Classes = append(v.Classes, "mode:"+c.Pol.Mode)
+	switch {
+	case c.Prefill >= 64:
+		v.Classes = append(v.Classes, "prefilled>=64")
+	case c.Prefill > 0:
+		v.Classes = append(v.Classes, "prefilled<64")
+	}
 	if res.TimedOut {
 		return ev.Verdict{Skip: "watchdog-inconclusive"}
 	}
@@ -247,6 +266,13 @@ func gen(t *rapid.T) Case {
 	nc := rapid.IntRange(2, 6).Draw(t, "ncallers")
 	nk := rapid.IntRange(1, 3).Draw(t, "nkeys")
 	c := Case{Yields: rapid.IntRange(0, 2).Draw(t, "yields")}
+	switch rapid.IntRange(0, 3).Draw(t, "prefillclass") {
+	case 2:
+		// around powers of two (tables that grow, fold or rehash at a size)
+		c.Prefill = (1 << rapid.IntRange(2, 10).Draw(t, "prefillpow")) - rapid.IntRange(0, 4).Draw(t, "prefilloff")
+	case 3:
+		c.Prefill = rapid.IntRange(1, 300).Draw(t, "prefill")
+	}
 	two := rapid.IntRange(0, 2).Draw(t, "twocaches") == 2 // two Cache objects, computations of one may consult the other
 	total := 0
 	for i := 0; i < nc; i++ {
